@@ -74,6 +74,7 @@ func runC28(t *testing.T, scAny any, trace bool) *Outcome {
 	sc := scAny.(*C28Scn)
 	o := &Outcome{}
 	res := Bubble(t, sc.Sched.config(trace), nil, func() {
+		simrt.Event("scenario %x", simrt.Hash(hashBytes(mustJSON(sc))))
 		w := NewWorld(o)
 		w.FS.MustWriteFile("/hello", []byte("hi"), 0o644)
 		var err error
